@@ -2,7 +2,9 @@ package sqlite
 
 import (
 	"context"
+	"database/sql"
 	"fmt"
+	"os"
 	"testing"
 	"time"
 
@@ -277,4 +279,156 @@ func at0(r []mocrelay.ServerMsg) any {
 		return nil
 	}
 	return r[0]
+}
+
+// TestC16SQLiteRepublishAfterStall: the writer is stalled (another connection
+// holds the database write lock) until the insert queue is full and the session
+// is blocked handing over an EVENT; the client disconnects, the lock is released,
+// and a new session publishes the same events again. Every EVENT of the new
+// session is answered by one accepting OK, and once the flush is observed a REQ
+// for their ids returns every one of them.
+func TestC16SQLiteRepublishAfterStall(t *testing.T) {
+	col := ev.For("C16").SetRule(c16Rule)
+	rapid.Check(t, func(t *rapid.T) {
+		dir, err := os.MkdirTemp("", "verif-c16-")
+		if err != nil {
+			t.Fatalf("tempdir: %v", err)
+		}
+		defer os.RemoveAll(dir)
+		dsn := "file:" + dir + "/relay.db?_busy_timeout=100"
+		db, err := sql.Open("sqlite3", dsn)
+		if err != nil {
+			t.Fatalf("open: %v", err)
+		}
+		defer db.Close()
+		bulk := rapid.IntRange(1, 3).Draw(t, "bulk")
+		hctx, hcancel := context.WithCancel(context.Background())
+		defer hcancel()
+		opt := mocsqlite.NewDefaultSQLiteHandlerOption()
+		opt.EventBulkInsertNum = bulk
+		opt.EventBulkInsertDur = 0
+		h, err := mocsqlite.NewSQLiteHandler(hctx, db, opt)
+		if err != nil {
+			t.Fatalf("handler: %v", err)
+		}
+		locker, err := sql.Open("sqlite3", dsn)
+		if err != nil {
+			t.Fatalf("open locker: %v", err)
+		}
+		defer locker.Close()
+		conn, err := locker.Conn(context.Background())
+		if err != nil {
+			t.Fatalf("conn: %v", err)
+		}
+		defer conn.Close()
+		if _, err := conn.ExecContext(context.Background(), "BEGIN IMMEDIATE"); err != nil {
+			t.Fatalf("begin immediate: %v", err)
+		}
+		n := 2*bulk + 3 + rapid.IntRange(0, 3).Draw(t, "extra")
+		evs := make([]*mocrelay.Event, n)
+		for i := range evs {
+			evs[i] = &mocrelay.Event{Pubkey: gen.Keys[i%2].Pub, Kind: 1, CreatedAt: int64(1000 + i), Tags: []mocrelay.Tag{}, Content: fmt.Sprint("republish ", i)}
+			gen.Seal(evs[i])
+		}
+		desc := map[string]any{"handler": "sqlite", "bulk_insert_num": bulk, "events": n, "scenario": "writer stalled by a foreign write lock, session cancelled while blocked on a full queue, lock released, same events published again in a new session"}
+		failf := func(sig, clause, obs string) {
+			hx.Fail(t, ev.Failure{Property: "C16", Signature: sig, Clause: clause, Case: desc, Observed: obs})
+		}
+		// session 1: publish until the handler stops taking input
+		s1 := startSess(h)
+		stop := make(chan struct{})
+		go func() {
+			for {
+				select {
+				case <-s1.send:
+				case <-stop:
+					return
+				}
+			}
+		}()
+		taken := 0
+		for _, e := range evs {
+			select {
+			case s1.recv <- &mocrelay.ClientEventMsg{Event: e}:
+				taken++
+				continue
+			case <-time.After(60 * time.Millisecond):
+			}
+			break
+		}
+		desc["taken_before_the_stall"] = taken
+		time.Sleep(time.Duration(rapid.SampledFrom([]int{0, 5, 30}).Draw(t, "wait_ms")) * time.Millisecond)
+		s1.cancel()
+		select {
+		case <-s1.ret:
+		case <-time.After(10 * time.Second):
+			failf("sqlite-handler-stalled", "a cancelled session returns", "ServeNostr did not return")
+		}
+		close(stop)
+		if _, err := conn.ExecContext(context.Background(), "ROLLBACK"); err != nil {
+			t.Fatalf("rollback: %v", err)
+		}
+		// session 2: the client reconnects and publishes everything again
+		s2 := startSess(h)
+		defer s2.cancel()
+		order := rapid.Permutation(evs).Draw(t, "resend_order")
+		for _, e := range order {
+			replies, err := s2.ask(&mocrelay.ClientEventMsg{Event: e})
+			if err != nil {
+				failf("sqlite-handler-stalled", "every EVENT is answered", err.Error())
+			}
+			ok := len(replies) == 1
+			if ok {
+				r, is := replies[0].(*mocrelay.ServerOKMsg)
+				ok = is && r.EventID == e.ID && r.Accepted
+			}
+			if !ok {
+				failf("sqlite-replies", "each EVENT gets exactly one accepting OK with its id", hx.JSON(gen.Norm(at0(replies))))
+			}
+		}
+		marker := &mocrelay.Event{Pubkey: gen.Keys[5].Pub, Kind: 1, CreatedAt: 999, Content: "flush-marker", Tags: []mocrelay.Tag{}}
+		gen.Seal(marker)
+		// markers fill the last batch (a batch is written when it is full)
+		for i := 0; i < bulk; i++ {
+			m := gen.CloneEvent(marker)
+			m.Content = fmt.Sprint("flush-marker ", i)
+			gen.Seal(m)
+			if _, err := s2.ask(&mocrelay.ClientEventMsg{Event: m}); err != nil {
+				failf("sqlite-handler-stalled", "every EVENT is answered", err.Error())
+			}
+			marker = m
+		}
+		var ids []string
+		for _, e := range evs {
+			ids = append(ids, e.ID)
+		}
+		deadline := time.Now().Add(10 * time.Second)
+		for {
+			replies, err := s2.ask(&mocrelay.ClientReqMsg{SubscriptionID: "all", ReqFilters: []*mocrelay.ReqFilter{{IDs: ids}}})
+			if err != nil {
+				failf("sqlite-handler-stalled", "REQ is answered", err.Error())
+			}
+			got := map[string]bool{}
+			for _, r := range replies {
+				if em, is := r.(*mocrelay.ServerEventMsg); is {
+					got[em.Event.ID] = true
+				}
+			}
+			if len(got) == len(evs) {
+				break
+			}
+			if time.Now().After(deadline) {
+				var missing []string
+				for _, e := range evs {
+					if !got[e.ID] {
+						missing = append(missing, gen.Short(e.ID))
+					}
+				}
+				failf("sqlite-acknowledged-event-lost", "REQ returns the stored matches: an event whose EVENT was answered by an accepting OK is stored once the writer has caught up", "still missing after 10 s: "+hx.JSON(missing))
+			}
+			time.Sleep(2 * time.Millisecond)
+		}
+		col.Label("handler:sqlite-republish-after-stall")
+		col.Case(taken < n, hx.JSON(desc), func() any { return desc })
+	})
 }
